@@ -87,7 +87,7 @@ structure Ctx where
   frame : Nat
   exitLabel : String
 
-abbrev M := StateT GS (Except Diag)
+abbrev M := StateT GS (Except CDiag)
 
 /-- `CodeBuffer::getLabel()`. -/
 def getLabel : M String :=
@@ -248,7 +248,7 @@ def callTailM (kind : CallKind) : M Code :=
 def exprCallKind (ctx : Ctx) (sys : Int) (f : String) : M CallKind :=
   if sys ≠ -1 then pure (CallKind.sys sys)
   else do
-    let sym ← (ctx.tbl.lookup ctx.scope f : Except Diag Symbol)
+    let sym ← (ctx.tbl.lookup ctx.scope f : Except CDiag Symbol)
     pure (if sym.type = .func then CallKind.func f else CallKind.proc f)
 
 /-- `genSysCall` / `genFuncCall` / `genProcCall` (2633-2680) over the generators of the two
@@ -277,10 +277,10 @@ def genExpr (ctx : Ctx) : AExpr → Reg → M Code
     match c with
     | some v => genConst reg v
     | none => do
-      let sym ← (ctx.tbl.lookup ctx.scope n : Except Diag Symbol)
+      let sym ← (ctx.tbl.lookup ctx.scope n : Except CDiag Symbol)
       pure (genVar reg sym)
   | .sub n i, _ => do
-    let baseSymbol ← (ctx.tbl.lookup ctx.scope n : Except Diag Symbol)
+    let baseSymbol ← (ctx.tbl.lookup ctx.scope n : Except CDiag Symbol)
     match i.const with
     | some v => pure (genVar .A baseSymbol ++ [iLDAI v.toInt])
     | none => do
@@ -404,12 +404,12 @@ def genStmt (ctx : Ctx) : AStmt → M Code
   | .seq ss => genStmts ctx ss
   | .assign n e => do
     let c ← genExpr ctx e .A
-    let sym ← (ctx.tbl.lookup ctx.scope n : Except Diag Symbol)
+    let sym ← (ctx.tbl.lookup ctx.scope n : Except CDiag Symbol)
     if sym.scope = "" then pure (c ++ [lSTAM sym.globalLabel])
     else pure (c ++ [iLDBM SP_OFFSET, .fb .stai ctx.frame sym.stackOffset])
   | .assignSub n i e => do
     let ci ← genExpr ctx i .A
-    let sym ← (ctx.tbl.lookup ctx.scope n : Except Diag Symbol)
+    let sym ← (ctx.tbl.lookup ctx.scope n : Except CDiag Symbol)
     let stackOffset ← getOffset
     incOffset 1
     let ce ← genExpr ctx e .A
@@ -465,13 +465,13 @@ def modifySym (tbl : SymTab) (scope name : String) (f : Symbol → Symbol) : Sym
   | none => tbl
 
 /-- `ArrayDecl::getSize()` (832-837). -/
-def arraySize (n : String) (e : AExpr) : Except Diag Int :=
+def arraySize (n : String) (e : AExpr) : Except CDiag Int :=
   match e.const with
   | some v => .ok v.toInt
   | none => .error (.nonConstArrayLength n)
 
 /-- `CodeGen::visitPost(VarDecl&)` / `visitPost(ArrayDecl&)` on the global declarations. -/
-def cgGlobals : List ADecl → CGState → Except Diag CGState
+def cgGlobals : List ADecl → CGState → Except CDiag CGState
   | [], st => pure st
   | d :: ds, st =>
     match d with
@@ -499,7 +499,7 @@ def formalLocations (scope : String) (frame : Nat) : List X.Formal → Int → S
       (modifySym tbl scope f.name fun s => { s with stackOffset := fbo, frame := frame })
 
 /-- `LocalDeclLocations` (2739-2760): returns the table and the frame offset (= size) reached. -/
-def localDeclLocations (scope : String) (frame : Nat) : List ADecl → Nat → SymTab → Except Diag (SymTab × Nat)
+def localDeclLocations (scope : String) (frame : Nat) : List ADecl → Nat → SymTab → Except CDiag (SymTab × Nat)
   | [], count, tbl => pure (tbl, count)
   | d :: ds, count, tbl =>
     match d with
@@ -521,7 +521,7 @@ def cgLocalVars (scope : String) : List ADecl → SymTab → GS → SymTab × GS
     | _ => cgLocalVars scope ds tbl gs
 
 /-- `CodeGen::visitPre(Proc&)`, the walk over the procedure, `visitPost(Proc&)`. -/
-def cgProc (i : Nat) (p : AProc) (st : CGState) : Except Diag CGState := do
+def cgProc (i : Nat) (p : AProc) (st : CGState) : Except CDiag CGState := do
   let _ ← st.tbl.lookup "" p.name
   let (exitLabel, gs0) := takeLabel st.gs
   let tbl0 := modifySym st.tbl "" p.name fun s => { s with frame := i }
@@ -537,14 +537,14 @@ def cgProc (i : Nat) (p : AProc) (st : CGState) : Except Diag CGState := do
                  frames := st.frames ++ [{ size := gs2.size, exitLabel := exitLabel }],
                  instrs := st.instrs ++ [.prologue p.name] ++ body ++ [.epilogue p.name] }
 
-def cgProcs : List AProc → Nat → CGState → Except Diag CGState
+def cgProcs : List AProc → Nat → CGState → Except CDiag CGState
   | [], _, st => pure st
   | p :: ps, i, st => do
     let st' ← cgProc i p st
     cgProcs ps (i + 1) st'
 
 /-- `tree->accept(&codeGen)`. -/
-def codeGen (tbl : SymTab) (P : AProgram) : Except Diag CGOut := do
+def codeGen (tbl : SymTab) (P : AProgram) : Except CDiag CGOut := do
   let st0 : CGState := { tbl := tbl, instrs := startStub }
   let st1 ← cgGlobals P.globals st0
   let st2 ← cgProcs P.procs 0 st1
